@@ -204,8 +204,8 @@ def stitch_expected(dec, bid):
             es = band_entries(band)
         taken = [e for e in es if after is None or gen.apath_cmp(e["apath"], after) == 2]
         out.extend((e, n) for e in taken)
-        if band is not None and band["tail"] is not None:
-            break
+        if band is not None and band["tail"] is not None and band["tail"].get("t") != "empty":
+            break          # only a non-empty tail closes a band
         if taken:
             after = taken[-1]["apath"]
         nxt = None
